@@ -649,6 +649,17 @@ def _cvc5_version():
         return '(not available)'
 
 
+def _bounds_with_probes(check, tier):
+    b = dict(check.bounds(tier))
+    try:
+        from checks.probes_doc import PROBES
+        if check.id in PROBES:
+            b['probes (quick [thorough] sizes; DESIGN.md 9.1 / 9.2)'] = PROBES[check.id]
+    except Exception:
+        pass
+    return b
+
+
 def finish(check, tier, seed, jobs, results, known, wall, budget):
     tot = {}
     for r in results:
@@ -717,7 +728,7 @@ def finish(check, tier, seed, jobs, results, known, wall, budget):
         exhaustive=(not nonexh and not errors),
         jobs=len(jobs), jobs_not_exhausted=len(nonexh),
         unexplored_prefixes=sum(r['pending_left'] for r in results),
-        functions_encoded=funcs, bounds=check.bounds(tier), stubs=check.stubs, outside_claim=check.outside,
+        functions_encoded=funcs, bounds=_bounds_with_probes(check, tier), stubs=check.stubs, outside_claim=check.outside,
         queries_total=tot.get('checks', 0), queries_unsat=tot.get('unsat', 0), queries_sat=tot.get('sat', 0),
         queries_unknown=tot.get('unknown', 0), solver_s=round(tot.get('solver_s', 0.0), 2),
         verification_queries=tot.get('verify_q', 0), assertions_proved=sum(r['proved'] for r in results),
